@@ -89,6 +89,12 @@ CHECKS.update({
                 note=UCI_NOTE),
 })
 
+CHECKS.update({
+    "C16": dict(level=MC, design="3 C16", technique="Book.tla builds the expected book from all game files with the specification's own SAN reader (doubling as oracle self-check); BookModel.tla model-checked with a colliding-key configuration as counterexample guard; the expected relation PosKey -> moves and specification-generated history variants are replayed against the real OpeningBook",
+                text="Exhaustive over the corpus: every distinct (10-ply prefix, token) pair of all 7 884 games is resolved by the specification and every distinct book position is looked up in the real book (exact set equality and legality); variants reaching a book placement with other castling/en-passant state must only be offered legal moves.",
+                note=TRUST + "; an independent ~30-line tokenizer (tools/booktok.py) splits the game files"),
+})
+
 NOT_YET = {
 }
 
